@@ -73,3 +73,19 @@ def iterate(ex, f, h, **kw):
                 if n not in p.next:
                     p.next[n] = p.mem.get(('alloca', r), ('p', n))
         yield p
+
+
+def var_types(f, h):
+    """{source name: IR type} of the loop-carried variables at header h"""
+    out = {}
+    for ph in f.blocks[h].phis():
+        nm = f.var_names.get(ph.res)
+        if nm:
+            out[nm] = (ph.ty or '').strip()
+    if f.order:
+        for ins in f.blocks[f.order[0]].instrs:
+            if ins.op == 'alloca':
+                nm = f.var_names.get(ins.res)
+                if nm and nm not in out:
+                    out[nm] = (ins.srcty or '').strip()
+    return out
